@@ -167,7 +167,26 @@ func (c *WriteCommand) validateWriteRequest(ctx context.Context, req *openfgav1.
 	}
 
 	for _, tk := range deletes {
-		// TODO validate relation format and object format
+		// A delete names exactly one tuple: an empty or malformed object or relation must not reach the
+		// datastore, where some backends would treat the missing part as "match anything".
+		if ok := tupleUtils.IsValidObject(tk.GetObject()); !ok {
+			return serverErrors.ValidationError(
+				&tupleUtils.InvalidTupleError{
+					Cause:    fmt.Errorf("invalid 'object' field format"),
+					TupleKey: tk,
+				},
+			)
+		}
+
+		if ok := tupleUtils.IsValidRelation(tk.GetRelation()); !ok {
+			return serverErrors.ValidationError(
+				&tupleUtils.InvalidTupleError{
+					Cause:    fmt.Errorf("the 'relation' field is malformed"),
+					TupleKey: tk,
+				},
+			)
+		}
+
 		if ok := tupleUtils.IsValidUser(tk.GetUser()); !ok {
 			return serverErrors.ValidationError(
 				&tupleUtils.InvalidTupleError{
